@@ -10,14 +10,26 @@
   `r0`'s.  The writer copies `rank` from the replayed nodes, so the rebuilt report holds the suites exactly as the
   accessors present the original (`Writer.view r`: stable sort by rank at every level, ranks kept).
 
+  RANKS.  `rank` is an in-memory attribute: no file format carries it, a LOADED report has rank 0 on every node and
+  holds its children in the order of the file (`Serial.loaded g r`, the right-hand side of C09's round-trip
+  theorems).  None of the theorems below assumes anything about ranks: `replay_roundtrip_partial` holds for every
+  assignment of ranks (the result is spelled with `view r`, which for a report whose ranks are all 0 IS `r.suites`),
+  `replay_roundtrip_loaded_partial` is that instance — literal identity, so the order in which replay walks the
+  children is the only thing that can restore the order of the report — and `save_load_replay_roundtrip_partial` /
+  `xml_save_load_replay_roundtrip_partial` compose it with the save/load theorems of C09: report → file → loaded
+  report → events → aggregate = loaded report, whatever ranks the saved report had.  `replay_roundtrip_seen_partial` is the
+  rank-free form for in-memory reports: the aggregate and the original are the same to every reader.
+
   `namesOk r` (sibling suites and the tests of a suite have distinct names) is what makes a path address one node;
   for tests it is forced by Python (`_tests` is a dict), for suites it is what every run produces.
 -/
 import LccModel.Lemmas.Replay
 import LccModel.Lemmas.ReplayGrammar
+import LccModel.Lemmas.ReplayLoaded
+import LccModel.Props.C09
 
 namespace LccModel.C18
-open LccModel.Report LccModel.Writer LccModel.Replay LccModel.ReplayGrammar LccModel.Grammar
+open LccModel.Report LccModel.Writer LccModel.Replay LccModel.ReplayGrammar LccModel.Grammar LccModel.Serial
 
 /-! ## the stream -/
 
@@ -66,6 +78,65 @@ theorem replay_roundtrip_partial (now : Time) (tid : Nat) (r r0 : Report)
   rw [fold_replay now tid r r0 h0.1 hn, replayImage_of_exact now r0 r h0.1 he]
   simp [h0.2.1, h0.2.2.1, h0.2.2.2]
 
+/-- Sentence 2 in rank-free form, for an in-memory report with ANY ranks: the aggregate of the replayed stream and the
+    original are the same report to every reader — `view` (what `get_suites()` / `get_tests()` return at every
+    level) of one is `view` of the other, and the times and setup / teardown results are equal. -/
+theorem replay_roundtrip_seen_partial (now : Time) (tid : Nat) (r r0 : Report)
+    (h0 : r0.suites = [] ∧ r0.setup = none ∧ r0.teardown = none ∧ r0.endTime = none)
+    (hn : namesOk r = true) (he : replayExact r = true) :
+    ∃ r', fold (replay now tid r) r0 = .ok r' ∧ view r' = view r ∧ r'.startTime = r.startTime ∧ r'.endTime = r.endTime ∧
+      r'.setup = r.setup ∧ r'.teardown = r.teardown :=
+  ⟨_, replay_roundtrip_partial now tid r r0 h0 hn he, view_view r _ rfl, rfl, rfl, rfl, rfl⟩
+
+/-! ## loaded reports: nothing left of the ranks -/
+
+/-- Sentence 2 for a report as a deferred backend gets it — LOADED from a file: every rank is 0 and the children
+    are held in the order of the file.  The aggregation of the replayed stream is literally that report: same
+    times, same setup / teardown, the same suites and tests IN THE SAME ORDER (no sort can help: all ranks are equal),
+    whatever their start times and their names are.  Same exact guard as `replay_roundtrip_partial`. -/
+theorem replay_roundtrip_loaded_partial (now : Time) (tid : Nat) (r r0 : Report)
+    (h0 : r0.suites = [] ∧ r0.setup = none ∧ r0.teardown = none ∧ r0.endTime = none)
+    (hn : namesOk r = true) (he : replayExact r = true) (hz : ranksZeroList r.suites = true) :
+    fold (replay now tid r) r0 =
+      .ok { r0 with startTime := r.startTime, endTime := r.endTime, setup := r.setup, teardown := r.teardown,
+                    suites := r.suites } := by
+  rw [replay_roundtrip_partial now tid r r0 h0 hn he, view_of_zero r hz]
+
+/-- The whole path of a deferred backend, JSON: ANY ranks on the saved report `r` (insertion order ≠ rank order ≠
+    start-time order allowed); the file loads to `l = Serial.loaded g r` (C09 `json_roundtrip`), and replaying `l`
+    into a fresh writer gives `l` back, literally, apart from the fields events do not carry (title, info,
+    nb_threads, saving time: those of `r0`). -/
+theorem save_load_replay_roundtrip_partial (g now : Time) (tid : Nat) (r r0 : Report)
+    (h0 : r0.suites = [] ∧ r0.setup = none ∧ r0.teardown = none ∧ r0.endTime = none)
+    (hrep : representable r = true) (hn : namesOk r = true) (he : replayExact r = true) :
+    ∃ l, fromJson (toJson g r) = .ok l ∧ l = loaded g r ∧
+      fold (replay now tid l) r0 =
+        .ok { r0 with startTime := l.startTime, endTime := l.endTime, setup := l.setup, teardown := l.teardown,
+                      suites := l.suites } :=
+  ⟨loaded g r, C09.json_roundtrip g r hrep, rfl,
+    replay_roundtrip_loaded_partial now tid (loaded g r) r0 h0 (namesOk_loaded g r hn) (replayExact_loaded g r he)
+      (ranksZero_loaded g r)⟩
+
+/-- The same through the XML backend, for the reports the XML format carries (`xmlSafe`, C09). -/
+theorem xml_save_load_replay_roundtrip_partial (g now : Time) (tid : Nat) (r r0 : Report)
+    (h0 : r0.suites = [] ∧ r0.setup = none ∧ r0.teardown = none ∧ r0.endTime = none)
+    (hs : xmlSafe r = true) (hrep : representable r = true) (hn : namesOk r = true) (he : replayExact r = true) :
+    ∃ l, xmlRoundTrip g r = .loaded l ∧ l = loaded g r ∧
+      fold (replay now tid l) r0 =
+        .ok { r0 with startTime := l.startTime, endTime := l.endTime, setup := l.setup, teardown := l.teardown,
+                      suites := l.suites } := by
+  obtain ⟨l, h1, h2⟩ := C09.xml_roundtrip_pipeline_partial g r hs hrep
+  subst h2
+  refine ⟨loaded g r, h1, rfl, ?_⟩
+  exact replay_roundtrip_loaded_partial now tid (loaded g r) r0 h0 (namesOk_loaded g r hn) (replayExact_loaded g r he)
+    (ranksZero_loaded g r)
+
+/-- Sentence 1b on the loaded form: the report of a finished run, saved and loaded, replays to a complete
+    well-formed, strictly sequential stream (a finished report stays finished through the file). -/
+theorem replay_wellformed_loaded (g now : Time) (hnow : now ≠ 0) (tid : Nat) (r : Report) (hf : finished r = true) :
+    WellFormed (replay now tid (loaded g r)) ∧ Sequential (replay now tid (loaded g r)) :=
+  replay_wellformed now hnow tid (loaded g r) (finished_loaded g r hf)
+
 /-! ### non-vacuity: a finished report with nested suites, setup, all log kinds, a skipped and a failed test, and an
     in-progress report with an unfinished step, satisfy the guards -/
 
@@ -102,6 +173,26 @@ def runningReport : Report :=
 
 example : finished finishedReport = true ∧ namesOk finishedReport = true ∧ replayExact finishedReport = true := by decide
 example : finished runningReport = false ∧ namesOk runningReport = true ∧ replayExact runningReport = true := by decide
+
+/-- a test that ran from `t` to `t + 3` -/
+def testAt (name : String) (t : Nat) : TestResult :=
+  { md := md name 0,
+    result := { steps := [{ description := "s", startTime := some (t + 1), endTime := some (t + 2), entries := [.log .info "m" (t + 1)] }],
+                startTime := some t, endTime := some (t + 3), status := some .passed, statusDetails := none } }
+
+/-- a report in loaded shape (ranks 0) whose siblings are NOT in start-time order at any level (the dependent test
+    `compat_1.2` is listed first and ran last; suite `a.b` is listed before suite `a` and ran after it), with names
+    that contain the separator of the string form of a path — one of them spelling the path of another node -/
+def loadedOutOfOrder : Report :=
+  { Report.empty with
+      startTime := some 1, endTime := some 90,
+      suites := [.mk (md "a.b" 0) (some 40) (some 80) none none [testAt "compat_1.2" 60, testAt "t" 50, testAt "" 50] [],
+                 .mk (md "a" 0) (some 4) (some 30) none none [testAt "." 20]
+                    [.mk (md "b" 0) (some 5) (some 19) none none [testAt "t" 10] []]] }
+
+example : ranksZeroList loadedOutOfOrder.suites = true ∧ finished loadedOutOfOrder = true ∧ namesOk loadedOutOfOrder = true ∧
+    replayExact loadedOutOfOrder = true ∧ representable loadedOutOfOrder = true ∧ xmlSafe loadedOutOfOrder = true := by decide
+example : ranksZeroList finishedReport.suites = false ∧ representable finishedReport = true ∧ xmlSafe finishedReport = true := by decide
 
 /-! ### refutations -/
 
